@@ -15,117 +15,117 @@ open AITB.Gen.C11
 
 /-- a value accepted by `QLearning::setLearningRate` lies in (0,1] -/
 theorem QLearning_setLearningRate_accepts (x : Rat) (h : QLearning_setLearningRate_rejects x = false) : 0 < x ∧ x ≤ 1 := by
-  simp only [QLearning_setLearningRate_rejects, Bool.or_eq_false_iff, decide_eq_false_iff_not, not_le, not_lt, gt_iff_lt] at h
+  simp only [QLearning_setLearningRate_rejects, Bool.or_eq_false_iff, Bool.not_eq_false', Bool.and_eq_true, decide_eq_true_eq, decide_eq_false_iff_not, not_le, not_lt, gt_iff_lt] at h
   exact h
 
 /-- a value accepted by `QLearning::setDiscount` lies in (0,1] -/
 theorem QLearning_setDiscount_accepts (x : Rat) (h : QLearning_setDiscount_rejects x = false) : 0 < x ∧ x ≤ 1 := by
-  simp only [QLearning_setDiscount_rejects, Bool.or_eq_false_iff, decide_eq_false_iff_not, not_le, not_lt, gt_iff_lt] at h
+  simp only [QLearning_setDiscount_rejects, Bool.or_eq_false_iff, Bool.not_eq_false', Bool.and_eq_true, decide_eq_true_eq, decide_eq_false_iff_not, not_le, not_lt, gt_iff_lt] at h
   exact h
 
 /-- a value accepted by `DoubleQLearning::setLearningRate` lies in (0,1] -/
 theorem DoubleQLearning_setLearningRate_accepts (x : Rat) (h : DoubleQLearning_setLearningRate_rejects x = false) : 0 < x ∧ x ≤ 1 := by
-  simp only [DoubleQLearning_setLearningRate_rejects, Bool.or_eq_false_iff, decide_eq_false_iff_not, not_le, not_lt, gt_iff_lt] at h
+  simp only [DoubleQLearning_setLearningRate_rejects, Bool.or_eq_false_iff, Bool.not_eq_false', Bool.and_eq_true, decide_eq_true_eq, decide_eq_false_iff_not, not_le, not_lt, gt_iff_lt] at h
   exact h
 
 /-- a value accepted by `DoubleQLearning::setDiscount` lies in (0,1] -/
 theorem DoubleQLearning_setDiscount_accepts (x : Rat) (h : DoubleQLearning_setDiscount_rejects x = false) : 0 < x ∧ x ≤ 1 := by
-  simp only [DoubleQLearning_setDiscount_rejects, Bool.or_eq_false_iff, decide_eq_false_iff_not, not_le, not_lt, gt_iff_lt] at h
+  simp only [DoubleQLearning_setDiscount_rejects, Bool.or_eq_false_iff, Bool.not_eq_false', Bool.and_eq_true, decide_eq_true_eq, decide_eq_false_iff_not, not_le, not_lt, gt_iff_lt] at h
   exact h
 
 /-- a value accepted by `HystereticQLearning::setPositiveLearningRate` lies in (0,1] -/
 theorem HystereticQLearning_setPositiveLearningRate_accepts (x : Rat) (h : HystereticQLearning_setPositiveLearningRate_rejects x = false) : 0 < x ∧ x ≤ 1 := by
-  simp only [HystereticQLearning_setPositiveLearningRate_rejects, Bool.or_eq_false_iff, decide_eq_false_iff_not, not_le, not_lt, gt_iff_lt] at h
+  simp only [HystereticQLearning_setPositiveLearningRate_rejects, Bool.or_eq_false_iff, Bool.not_eq_false', Bool.and_eq_true, decide_eq_true_eq, decide_eq_false_iff_not, not_le, not_lt, gt_iff_lt] at h
   exact h
 
 /-- a value accepted by `HystereticQLearning::setDiscount` lies in (0,1] -/
 theorem HystereticQLearning_setDiscount_accepts (x : Rat) (h : HystereticQLearning_setDiscount_rejects x = false) : 0 < x ∧ x ≤ 1 := by
-  simp only [HystereticQLearning_setDiscount_rejects, Bool.or_eq_false_iff, decide_eq_false_iff_not, not_le, not_lt, gt_iff_lt] at h
+  simp only [HystereticQLearning_setDiscount_rejects, Bool.or_eq_false_iff, Bool.not_eq_false', Bool.and_eq_true, decide_eq_true_eq, decide_eq_false_iff_not, not_le, not_lt, gt_iff_lt] at h
   exact h
 
 /-- a value accepted by `SARSA::setLearningRate` lies in (0,1] -/
 theorem SARSA_setLearningRate_accepts (x : Rat) (h : SARSA_setLearningRate_rejects x = false) : 0 < x ∧ x ≤ 1 := by
-  simp only [SARSA_setLearningRate_rejects, Bool.or_eq_false_iff, decide_eq_false_iff_not, not_le, not_lt, gt_iff_lt] at h
+  simp only [SARSA_setLearningRate_rejects, Bool.or_eq_false_iff, Bool.not_eq_false', Bool.and_eq_true, decide_eq_true_eq, decide_eq_false_iff_not, not_le, not_lt, gt_iff_lt] at h
   exact h
 
 /-- a value accepted by `SARSA::setDiscount` lies in (0,1] -/
 theorem SARSA_setDiscount_accepts (x : Rat) (h : SARSA_setDiscount_rejects x = false) : 0 < x ∧ x ≤ 1 := by
-  simp only [SARSA_setDiscount_rejects, Bool.or_eq_false_iff, decide_eq_false_iff_not, not_le, not_lt, gt_iff_lt] at h
+  simp only [SARSA_setDiscount_rejects, Bool.or_eq_false_iff, Bool.not_eq_false', Bool.and_eq_true, decide_eq_true_eq, decide_eq_false_iff_not, not_le, not_lt, gt_iff_lt] at h
   exact h
 
 /-- a value accepted by `ExpectedSARSA::setLearningRate` lies in (0,1] -/
 theorem ExpectedSARSA_setLearningRate_accepts (x : Rat) (h : ExpectedSARSA_setLearningRate_rejects x = false) : 0 < x ∧ x ≤ 1 := by
-  simp only [ExpectedSARSA_setLearningRate_rejects, Bool.or_eq_false_iff, decide_eq_false_iff_not, not_le, not_lt, gt_iff_lt] at h
+  simp only [ExpectedSARSA_setLearningRate_rejects, Bool.or_eq_false_iff, Bool.not_eq_false', Bool.and_eq_true, decide_eq_true_eq, decide_eq_false_iff_not, not_le, not_lt, gt_iff_lt] at h
   exact h
 
 /-- a value accepted by `ExpectedSARSA::setDiscount` lies in (0,1] -/
 theorem ExpectedSARSA_setDiscount_accepts (x : Rat) (h : ExpectedSARSA_setDiscount_rejects x = false) : 0 < x ∧ x ≤ 1 := by
-  simp only [ExpectedSARSA_setDiscount_rejects, Bool.or_eq_false_iff, decide_eq_false_iff_not, not_le, not_lt, gt_iff_lt] at h
+  simp only [ExpectedSARSA_setDiscount_rejects, Bool.or_eq_false_iff, Bool.not_eq_false', Bool.and_eq_true, decide_eq_true_eq, decide_eq_false_iff_not, not_le, not_lt, gt_iff_lt] at h
   exact h
 
 /-- a value accepted by `SARSAL::setLearningRate` lies in (0,1] -/
 theorem SARSAL_setLearningRate_accepts (x : Rat) (h : SARSAL_setLearningRate_rejects x = false) : 0 < x ∧ x ≤ 1 := by
-  simp only [SARSAL_setLearningRate_rejects, Bool.or_eq_false_iff, decide_eq_false_iff_not, not_le, not_lt, gt_iff_lt] at h
+  simp only [SARSAL_setLearningRate_rejects, Bool.or_eq_false_iff, Bool.not_eq_false', Bool.and_eq_true, decide_eq_true_eq, decide_eq_false_iff_not, not_le, not_lt, gt_iff_lt] at h
   exact h
 
 /-- a value accepted by `SARSAL::setDiscount` lies in (0,1] -/
 theorem SARSAL_setDiscount_accepts (x : Rat) (h : SARSAL_setDiscount_rejects x = false) : 0 < x ∧ x ≤ 1 := by
-  simp only [SARSAL_setDiscount_rejects, Bool.or_eq_false_iff, decide_eq_false_iff_not, not_le, not_lt, gt_iff_lt] at h
+  simp only [SARSAL_setDiscount_rejects, Bool.or_eq_false_iff, Bool.not_eq_false', Bool.and_eq_true, decide_eq_true_eq, decide_eq_false_iff_not, not_le, not_lt, gt_iff_lt] at h
   exact h
 
 /-- a value accepted by `OffPolicyBase::setLearningRate` lies in (0,1] -/
 theorem OffPolicyBase_setLearningRate_accepts (x : Rat) (h : OffPolicyBase_setLearningRate_rejects x = false) : 0 < x ∧ x ≤ 1 := by
-  simp only [OffPolicyBase_setLearningRate_rejects, Bool.or_eq_false_iff, decide_eq_false_iff_not, not_le, not_lt, gt_iff_lt] at h
+  simp only [OffPolicyBase_setLearningRate_rejects, Bool.or_eq_false_iff, Bool.not_eq_false', Bool.and_eq_true, decide_eq_true_eq, decide_eq_false_iff_not, not_le, not_lt, gt_iff_lt] at h
   exact h
 
 /-- a value accepted by `OffPolicyBase::setDiscount` lies in (0,1] -/
 theorem OffPolicyBase_setDiscount_accepts (x : Rat) (h : OffPolicyBase_setDiscount_rejects x = false) : 0 < x ∧ x ≤ 1 := by
-  simp only [OffPolicyBase_setDiscount_rejects, Bool.or_eq_false_iff, decide_eq_false_iff_not, not_le, not_lt, gt_iff_lt] at h
+  simp only [OffPolicyBase_setDiscount_rejects, Bool.or_eq_false_iff, Bool.not_eq_false', Bool.and_eq_true, decide_eq_true_eq, decide_eq_false_iff_not, not_le, not_lt, gt_iff_lt] at h
   exact h
 
 /-- a value accepted by `HystereticQLearning::setNegativeLearningRate` lies in [0,1] -/
 theorem HystereticQLearning_setNegativeLearningRate_accepts (x : Rat) (h : HystereticQLearning_setNegativeLearningRate_rejects x = false) : 0 ≤ x ∧ x ≤ 1 := by
-  simp only [HystereticQLearning_setNegativeLearningRate_rejects, Bool.or_eq_false_iff, decide_eq_false_iff_not, not_le, not_lt, gt_iff_lt] at h
+  simp only [HystereticQLearning_setNegativeLearningRate_rejects, Bool.or_eq_false_iff, Bool.not_eq_false', Bool.and_eq_true, decide_eq_true_eq, decide_eq_false_iff_not, not_le, not_lt, gt_iff_lt] at h
   exact h
 
 /-- a value accepted by `SARSAL::setLambda` lies in [0,1] -/
 theorem SARSAL_setLambda_accepts (x : Rat) (h : SARSAL_setLambda_rejects x = false) : 0 ≤ x ∧ x ≤ 1 := by
-  simp only [SARSAL_setLambda_rejects, Bool.or_eq_false_iff, decide_eq_false_iff_not, not_le, not_lt, gt_iff_lt] at h
+  simp only [SARSAL_setLambda_rejects, Bool.or_eq_false_iff, Bool.not_eq_false', Bool.and_eq_true, decide_eq_true_eq, decide_eq_false_iff_not, not_le, not_lt, gt_iff_lt] at h
   exact h
 
 /-- a value accepted by `OffPolicyControl::setEpsilon` lies in [0,1] -/
 theorem OffPolicyControl_setEpsilon_accepts (x : Rat) (h : OffPolicyControl_setEpsilon_rejects x = false) : 0 ≤ x ∧ x ≤ 1 := by
-  simp only [OffPolicyControl_setEpsilon_rejects, Bool.or_eq_false_iff, decide_eq_false_iff_not, not_le, not_lt, gt_iff_lt] at h
+  simp only [OffPolicyControl_setEpsilon_rejects, Bool.or_eq_false_iff, Bool.not_eq_false', Bool.and_eq_true, decide_eq_true_eq, decide_eq_false_iff_not, not_le, not_lt, gt_iff_lt] at h
   exact h
 
 /-- a value accepted by `QL::setLambda` lies in [0,1] -/
 theorem QL_setLambda_accepts (x : Rat) (h : QL_setLambda_rejects x = false) : 0 ≤ x ∧ x ≤ 1 := by
-  simp only [QL_setLambda_rejects, Bool.or_eq_false_iff, decide_eq_false_iff_not, not_le, not_lt, gt_iff_lt] at h
+  simp only [QL_setLambda_rejects, Bool.or_eq_false_iff, Bool.not_eq_false', Bool.and_eq_true, decide_eq_true_eq, decide_eq_false_iff_not, not_le, not_lt, gt_iff_lt] at h
   exact h
 
 /-- a value accepted by `QLEvaluation::setLambda` lies in [0,1] -/
 theorem QLEvaluation_setLambda_accepts (x : Rat) (h : QLEvaluation_setLambda_rejects x = false) : 0 ≤ x ∧ x ≤ 1 := by
-  simp only [QLEvaluation_setLambda_rejects, Bool.or_eq_false_iff, decide_eq_false_iff_not, not_le, not_lt, gt_iff_lt] at h
+  simp only [QLEvaluation_setLambda_rejects, Bool.or_eq_false_iff, Bool.not_eq_false', Bool.and_eq_true, decide_eq_true_eq, decide_eq_false_iff_not, not_le, not_lt, gt_iff_lt] at h
   exact h
 
 /-- a value accepted by `RetraceL::setLambda` lies in [0,1] -/
 theorem RetraceL_setLambda_accepts (x : Rat) (h : RetraceL_setLambda_rejects x = false) : 0 ≤ x ∧ x ≤ 1 := by
-  simp only [RetraceL_setLambda_rejects, Bool.or_eq_false_iff, decide_eq_false_iff_not, not_le, not_lt, gt_iff_lt] at h
+  simp only [RetraceL_setLambda_rejects, Bool.or_eq_false_iff, Bool.not_eq_false', Bool.and_eq_true, decide_eq_true_eq, decide_eq_false_iff_not, not_le, not_lt, gt_iff_lt] at h
   exact h
 
 /-- a value accepted by `RetraceLEvaluation::setLambda` lies in [0,1] -/
 theorem RetraceLEvaluation_setLambda_accepts (x : Rat) (h : RetraceLEvaluation_setLambda_rejects x = false) : 0 ≤ x ∧ x ≤ 1 := by
-  simp only [RetraceLEvaluation_setLambda_rejects, Bool.or_eq_false_iff, decide_eq_false_iff_not, not_le, not_lt, gt_iff_lt] at h
+  simp only [RetraceLEvaluation_setLambda_rejects, Bool.or_eq_false_iff, Bool.not_eq_false', Bool.and_eq_true, decide_eq_true_eq, decide_eq_false_iff_not, not_le, not_lt, gt_iff_lt] at h
   exact h
 
 /-- a value accepted by `TreeBackupL::setLambda` lies in [0,1] -/
 theorem TreeBackupL_setLambda_accepts (x : Rat) (h : TreeBackupL_setLambda_rejects x = false) : 0 ≤ x ∧ x ≤ 1 := by
-  simp only [TreeBackupL_setLambda_rejects, Bool.or_eq_false_iff, decide_eq_false_iff_not, not_le, not_lt, gt_iff_lt] at h
+  simp only [TreeBackupL_setLambda_rejects, Bool.or_eq_false_iff, Bool.not_eq_false', Bool.and_eq_true, decide_eq_true_eq, decide_eq_false_iff_not, not_le, not_lt, gt_iff_lt] at h
   exact h
 
 /-- a value accepted by `TreeBackupLEvaluation::setLambda` lies in [0,1] -/
 theorem TreeBackupLEvaluation_setLambda_accepts (x : Rat) (h : TreeBackupLEvaluation_setLambda_rejects x = false) : 0 ≤ x ∧ x ≤ 1 := by
-  simp only [TreeBackupLEvaluation_setLambda_rejects, Bool.or_eq_false_iff, decide_eq_false_iff_not, not_le, not_lt, gt_iff_lt] at h
+  simp only [TreeBackupLEvaluation_setLambda_rejects, Bool.or_eq_false_iff, Bool.not_eq_false', Bool.and_eq_true, decide_eq_true_eq, decide_eq_false_iff_not, not_le, not_lt, gt_iff_lt] at h
   exact h
 
 /-- a threshold accepted by `PrioritizedSweeping::setQueueThreshold` is non-negative (θ = 0, the value of
